@@ -41,7 +41,7 @@ pub open spec fn avcc_from(d: Seq<u8>, cur: int) -> Seq<u8>
         let e = if q < 0 { d.len() as int } else { q };
         let unit = d.subrange(s, e);
         let head = if unit.len() == 0 { Seq::<u8>::empty() } else { be32(unit.len() as u32) + unit };
-        if e <= cur { head } else { head + avcc_from(d, e) }
+        if e <= cur || e > d.len() { head } else { head + avcc_from(d, e) }
     }
 }
 
@@ -131,15 +131,16 @@ impl<'a> AnnexBNalIter<'a> {
 }
 
 fn annexb_to_avcc(data: &[u8]) -> (out: Vec<u8>)
-    requires data@.len() <= u32::MAX
+    requires data@.len() <= u32::MAX, data@.len() <= isize::MAX
     ensures out@ == (if avcc_from(data@, 0).len() == 0 && data@.len() > 0 { be32(data@.len() as u32) + data@ } else { avcc_from(data@, 0) })
 {
     let mut out = Vec::new();
 
     let mut it = AnnexBNalIter::new(data);
     loop
-        invariant it.data@ == data@, it.cursor <= data@.len(), data@.len() <= u32::MAX,
+        invariant it.data@ == data@, it.cursor <= data@.len(), data@.len() <= u32::MAX, data@.len() <= isize::MAX,
             out@ + avcc_from(data@, it.cursor as int) == avcc_from(data@, 0),
+        ensures next_sc(data@, it.cursor as int) == -1,
         decreases data@.len() - it.cursor + (if next_sc(data@, it.cursor as int) >= 0 { 1int } else { 0int }),
     {
         let ghost cur = it.cursor as int;
@@ -167,6 +168,7 @@ fn annexb_to_avcc(data: &[u8]) -> (out: Vec<u8>)
         }
     }
 
+    proof { assert(avcc_from(data@, it.cursor as int) =~= Seq::<u8>::empty()); assert(out@ =~= avcc_from(data@, 0)); }
     // Fallback: if no start codes found, treat entire input as single NAL
     if out.is_empty() && !data.is_empty() {
         let len = data.len() as u32;
